@@ -52,6 +52,10 @@ type Plan struct {
 	// (that is MapStream's own context, which ends on a failure, on Close or with the constructor's context - not
 	// the context of whichever Next call happens to be waiting)
 	FCtxAware bool `json:"f_ctx_aware,omitempty"`
+	// FBlockLast (MapStream with a failing source): the call of f for the last item before the source's failure
+	// returns only when its context ends (a call that waits for something that will not come): the source's
+	// failure has to end it
+	FBlockLast bool `json:"f_block_last,omitempty"`
 }
 
 func genPlan(streamKind bool) func(t *rapid.T) Plan {
@@ -94,6 +98,7 @@ func genPlan(streamKind bool) func(t *rapid.T) Plan {
 				p.CloseAfter = rapid.IntRange(0, p.Len).Draw(t, "closeafter")
 			}
 			p.FCtxAware = rapid.IntRange(0, 2).Draw(t, "fctxaware") == 0
+			p.FBlockLast = p.SrcErrAt >= 1 && rapid.IntRange(0, 2).Draw(t, "fblocklast") == 0
 			p.CtorCancelled = rapid.IntRange(0, 11).Draw(t, "ctorcancel") == 0
 			if !p.CtorCancelled && rapid.IntRange(0, 5).Draw(t, "ctorcancelat") == 0 {
 				p.CtorCancelAtMs = rapid.SampledFrom([]int{1, 3, 10, 40, 200}).Draw(t, "ctorcancelms")
@@ -292,6 +297,13 @@ func run(p Plan) (vk.Outcome, error) {
 				defer func() { close(quitC); cw.Wait() }() // (the fake clock stops when the bubble's root returns)
 			}
 			ms := parallel.MapStream[int, int](ctorCtx, src, p.Par, p.Buf, func(ctx context.Context, i int) (int, error) {
+				if p.FBlockLast && p.SrcErrAt >= 1 && i == p.SrcErrAt-1 {
+					if i >= 0 && i < len(started) {
+						started[i].Add(1)
+					}
+					<-ctx.Done()
+					return fval(i), ctx.Err()
+				}
 				if p.FCtxAware {
 					if i >= 0 && i < len(started) {
 						started[i].Add(1)
